@@ -45,6 +45,8 @@ pub enum Op {
     Drain { ring: usize, max: Option<u32> },
     CloseFile { file: usize },
     DropRing { ring: usize },
+    /// create a ring in a slot whose ring was dropped (its fd may be recycled)
+    NewRing { ring: usize },
     /// fault: host crash; afterwards new rings are created ("bounce") and files re-opened
     Crash,
 }
@@ -64,6 +66,9 @@ pub struct Scenario {
     /// turmoil::Sim, reaping through AsyncFd::readable loops; crash the host before this step (0 = never)
     #[serde(default)]
     pub in_sim: Option<InSim>,
+    /// filesystem capacity in bytes (0 = unlimited)
+    #[serde(default)]
+    pub capacity: u64,
 }
 
 #[derive(Clone, Debug, Serialize, Deserialize)]
@@ -75,6 +80,20 @@ pub struct InSim {
 }
 
 pub struct C18;
+
+impl Scenario {
+    /// One scenario in five runs on a disk that is (nearly) full: the initial contents fit exactly, later
+    /// growth may hit ENOSPC, in-place overwrites must still succeed.
+    fn with_capacity(mut self, rng: &mut Rng) -> Self {
+        if rng.chance(1, 5) {
+            self.capacity = self.files.iter().map(|l| *l as u64).sum::<u64>() + rng.range(0, 30);
+            if self.capacity == 0 {
+                self.capacity = 1;
+            }
+        }
+        self
+    }
+}
 
 #[derive(Clone, Debug)]
 struct Outstanding {
@@ -164,7 +183,7 @@ impl Property for C18 {
         let mut tag = 0u32;
         for _ in 0..n {
             let ring = rng.below(nr as u64) as usize;
-            match rng.weighted(&[40, 18, 12, 16, 3, 2]) {
+            match rng.weighted(&[40, 18, 12, 16, 3, 2, 2]) {
                 0 => {
                     ud += 1;
                     let file = rng.below(nf as u64) as usize;
@@ -198,7 +217,8 @@ impl Property for C18 {
                 }),
                 3 => ops.push(Op::Drain { ring, max: if rng.chance(1, 3) { Some(rng.range(1, 3) as u32) } else { None } }),
                 4 => ops.push(Op::CloseFile { file: rng.below(nf as u64) as usize }),
-                _ => ops.push(Op::DropRing { ring }),
+                5 => ops.push(Op::DropRing { ring }),
+                _ => ops.push(Op::NewRing { ring }),
             }
         }
         Scenario {
@@ -210,7 +230,9 @@ impl Property for C18 {
             files: (0..nf).map(|_| rng.range(0, 40) as u32).collect(),
             ops,
             in_sim: None,
+            capacity: 0,
         }
+        .with_capacity(rng)
     }
 
     /// Fault enumeration: the program as is, plus a crash after every prefix.
@@ -288,6 +310,7 @@ impl Property for C18 {
                 Op::Drain { max, .. } => format!("drain{}", if max.is_some() { "-part" } else { "" }),
                 Op::CloseFile { .. } => "close".into(),
                 Op::DropRing { .. } => "dropring".into(),
+                Op::NewRing { .. } => "newring".into(),
                 Op::Crash => "CRASH".into(),
             })
             .collect::<Vec<_>>()
@@ -303,6 +326,9 @@ fn run_inner(sc: &Scenario, log: &mut Log, rep: &mut Report) -> Option<Violation
     if sc.page_cache {
         cfg.page_cache();
     }
+    if sc.capacity > 0 {
+        cfg.capacity(sc.capacity);
+    }
     let mut w = World {
         fs: Arc::new(Mutex::new(Fs::new(cfg, sc.fs_seed))),
         iou: Arc::new(Mutex::new(IoUringHostState::new())),
@@ -317,7 +343,7 @@ fn run_inner(sc: &Scenario, log: &mut Log, rep: &mut Report) -> Option<Violation
         let data = pattern(1000 + i as u32, *len);
         let f = w.entered(|| {
             let f = sfs::OpenOptions::new().read(true).write(true).create(true).open(FILES[i]).expect("create file");
-            f.write_at(&data, 0).expect("initial write");
+            f.write_at(&data, 0).expect("initial write (set-up runs before the capacity is lowered)");
             f.sync_all().expect("sync");
             f
         });
@@ -556,8 +582,22 @@ fn run_inner(sc: &Scenario, log: &mut Log, rep: &mut Report) -> Option<Violation
                                     _ => unreachable!(),
                                 },
                                 SqeKind::Write { off, len, tag, .. } => {
-                                    model.write_at(file as u8, *off, &pattern(*tag, *len));
-                                    *len as i32
+                                    let cur_len = match model.handle_len(file as u8) {
+                                        Obs::Meta { len, .. } => len,
+                                        _ => 0,
+                                    };
+                                    let extends = *off + *len as u64 > cur_len;
+                                    if sc.capacity > 0 && extends && *result == -28 {
+                                        // growth on a full disk may be refused (ENOSPC): no effect
+                                        rep.probes.inc("enospc_on_growth");
+                                        -28
+                                    } else {
+                                        if sc.capacity > 0 && !extends {
+                                            rep.probes.inc("in_place_overwrite_on_limited_disk");
+                                        }
+                                        model.write_at(file as u8, *off, &pattern(*tag, *len));
+                                        *len as i32
+                                    }
                                 }
                                 SqeKind::Fsync { .. } => {
                                     model.sync_file(file as u8);
@@ -606,6 +646,18 @@ fn run_inner(sc: &Scenario, log: &mut Log, rep: &mut Report) -> Option<Violation
                             rep.faults.inc("ring_dropped_with_ops_in_flight");
                         }
                         log.ev(format!("#{i} drop ring{ring} with {inflight} ops in flight"));
+                    }
+                }
+            }
+            Op::NewRing { ring } => {
+                if let Some(slot) = rings.get_mut(*ring) {
+                    if slot.is_none() {
+                        let e = sc.ring_entries[*ring];
+                        let r = w.entered(|| IoUring::new(e).expect("ring"));
+                        *slot = Some(r);
+                        rms[*ring] = RingM { depth: e.next_power_of_two().max(1) as usize, sq: Vec::new(), out: Vec::new(), alive: true };
+                        rep.probes.inc("ring_created_after_a_drop");
+                        log.ev(format!("#{i} new ring in slot {ring}"));
                     }
                 }
             }
